@@ -358,6 +358,66 @@ def targets(ctx):
                     add("group_alters_known_field", where, f"got={got!r:.200} want={want!r:.200} input={bad.hex()[:160]}")
             labs.append(f"group:{where}:{status}")
             return Eval(fails, nontrivial=True, labels=labs)
+        if kind == "huge_tag":
+            # a tag varint with bits above bit 31 set: its field number is far outside the schema; whatever the decoder
+            # makes of it (the reference rejects it), it is not one of the known fields and must not touch them
+            cands = [r for r in recs if mi.by_number(r.number) is not None and r.wt in (0, 1, 2, 5)]
+            if not cands:
+                return Eval([], discard="no known record to alias")
+            r = cands[fault["field"] % len(cands)]
+            fi = mi.by_number(r.number)
+            base = (r.number << 3) | r.wt
+            k = [1, 2, 3, 2**10, 2**20, 2**31 - 1][fault["k"] % 6]
+            body = r.raw[len(wire.tag(r.number, r.wt)):]
+            other = {0: b"\x07", 1: b"\x07" * 8, 5: b"\x07" * 4, 2: b"\x01z"}[r.wt] if fault["own_payload"] else body
+            extra = wire.enc_varint(base | (k << 32)) + other
+            at = fault["pos"] % (len(recs) + 1)
+            bad = b"".join(x.raw for x in recs[:at]) + extra + b"".join(x.raw for x in recs[at:])
+            want = norm(schema, mi, tree)
+            entry = ["parse", "FromString", "load", "load_size", "load_delimited"][fault.get("entry", 0) % 5]
+            status, res = decode(name, bad, entry)
+            tally(name, bad, status)
+            if status == "ok":
+                got = known_snapshot(name, res)
+                if got != want:
+                    add("out_of_range_tag_alters_known_field", f"{fi.kind}|{entry}", f"got={got!r:.200} want={want!r:.200} input={bad.hex()[:200]}")
+                for cl, w2, d in validity(name, bad, status, res, "huge_tag"):
+                    add(cl, f"huge_tag|{w2}", d)
+            labs.append(f"huge_tag:{status}")
+            return Eval(fails, nontrivial=True, labels=labs)
+
+        if kind == "bad_utf8":
+            # a string field whose payload is not valid UTF-8 while all framing is intact: rejected, or - if a message is
+            # returned - the field still re-encodes to the payload that was received (never a silently altered text)
+            cands = [(r, mi.by_number(r.number)) for r in recs if mi.by_number(r.number) is not None and r.wt == 2
+                     and mi.by_number(r.number).type == "string" and mi.by_number(r.number).card != "map" and mi.by_number(r.number).wkt is None]
+            if not cands:
+                # no string field in the value: append an occurrence of one the schema declares
+                sf = [f for f in mi.fields if f.type == "string" and f.card != "map" and f.wkt is None]
+                if not sf:
+                    return Eval([], discard="no string field")
+                f0 = sf[fault["field"] % len(sf)]
+                extra_rec = wire.make_record(f0.number, 2, b"ok")
+                recs = recs + [extra_rec]
+                cands = [(extra_rec, f0)]
+            r, fi = cands[fault["field"] % len(cands)]
+            tail = [b"\xc3", b"ab\xe2\x82", b"\xf0\x9f\x98", b"\x80", b"a\xffb", b"\xc0\xaf", b"\xed\xa0\x80", b"\xf4\x90\x80\x80"][fault["what"] % 8]
+            payload = (r.payload if fault.get("keep_prefix") else b"") + tail
+            new_rec = wire.make_record(r.number, 2, payload)
+            bad = b"".join((new_rec.raw if x is r else x.raw) for x in recs)
+            entry = ["parse", "FromString", "load", "load_size", "load_delimited"][fault.get("entry", 0) % 5]
+            status, res = decode(name, bad, entry)
+            tally(name, bad, status)
+            if status == "ok":
+                try:
+                    out_recs = [x for x in wire.parse_records(bytes(res)) if x.number == r.number and x.wt == 2]
+                    if not any(x.payload == payload for x in out_recs):
+                        add("malformed_text_silently_altered", f"{fi.kind}|tail{fault['what'] % 8}|{entry}", f"payload {payload.hex()} came back as {[x.payload.hex() for x in out_recs]} input={bad.hex()[:160]}")
+                except Exception as e:  # noqa: BLE001
+                    add("malformed_text_result_not_encodable", f"{fi.kind}|{type(e).__name__}", f"{e}; input={bad.hex()[:160]}")
+            labs.append(f"bad_utf8:{status}")
+            return Eval(fails, nontrivial=True, labels=labs)
+
         if kind == "bad_in_group":
             # a (skipped) group whose CONTENT is malformed: the same rules as at the top level apply inside it
             used = {f.number for f in mi.fields}
@@ -423,6 +483,8 @@ def targets(ctx):
         st.fixed_dictionaries({"kind": st.just("mismatch"), "field": st.integers(0, 40), "wt": st.integers(0, 3), "v": st.integers(0, 999), "after": st.booleans(), "pos": st.integers(0, 20), "entry": st.integers(0, 4)}),
         st.fixed_dictionaries({"kind": st.just("group"), "field": st.integers(0, 40), "known_number": st.booleans(), "n_inner": st.integers(0, 5), "pos": st.integers(0, 20), "entry": st.integers(0, 4)}),
         st.fixed_dictionaries({"kind": st.just("inner_truncation"), "field": st.integers(0, 40), "pos": st.integers(0, 200)}),
+        st.fixed_dictionaries({"kind": st.just("huge_tag"), "field": st.integers(0, 40), "k": st.integers(0, 5), "own_payload": st.booleans(), "pos": st.integers(0, 20), "entry": st.integers(0, 4)}),
+        st.fixed_dictionaries({"kind": st.just("bad_utf8"), "field": st.integers(0, 40), "what": st.integers(0, 7), "keep_prefix": st.booleans(), "entry": st.integers(0, 4)}),
         st.fixed_dictionaries({"kind": st.just("bad_in_group"), "what": st.integers(0, 5), "lead": st.booleans(), "nest": st.booleans(), "pos": st.integers(0, 20), "entry": st.integers(0, 4)}),
     )
 
